@@ -62,7 +62,20 @@ static int ni (void)
 	if (*e) die ("bad int");
 	return (int) v;
 }
-static char *nname (void) { char *t = nt (); return strcmp (t, "~") ? t : 0; }
+/* a name: "~" = NULL, a token starting with '%' is percent-encoded ("%" alone = the empty string, "%my%20prob" = "my prob") */
+static char *nname (void)
+{
+	char *t = nt (), *r, *w;
+	if (!strcmp (t, "~")) return 0;
+	if (t[0] != '%') return t;
+	for (r = t + 1, w = t; *r; )
+	{
+		if (*r == '%' && r[1] && r[2]) { char h[3] = { r[1], r[2], 0 }; *w++ = (char) strtol (h, 0, 16); r += 3; }
+		else *w++ = *r++;
+	}
+	*w = 0;
+	return t;
+}
 /* a character argument: "L" or "#76" (numeric code) */
 static int nchr (void) { char *t = nt (); if (t[0] == '#') return atoi (t + 1); return (unsigned char) t[0]; }
 static void nq (mpq_t q)
@@ -740,6 +753,26 @@ static void dump_body (mpq_QSprob p, int ext)
 		free_cols (nc, cnt, beg, ind, val, o, l, u, names);
 	}
 }
+/* writehash pK : what the two writers would put into a file right now (FNV-1a of the text) */
+static void c_writehash (void)
+{
+	int k = nslot ('p'), f;
+	static const char *fm[2] = { "MPS", "LP" };
+	BEGIN ("writehash");
+	for (f = 0; f < 2; f++)
+	{
+		FILE *t = tmpfile (); int rc, ch; unsigned long long h = 1469598103934665603ULL; long n = 0; char key[32];
+		if (!t) die ("writehash: tmpfile");
+		rc = P[k] ? mpq_QSwrite_prob_file (P[k], t, fm[f]) : 99;
+		fflush (t); rewind (t);
+		while ((ch = fgetc (t)) != EOF) { h ^= (unsigned char) ch; h *= 1099511628211ULL; n++; }
+		fclose (t);
+		snprintf (key, sizeof key, "%s_rc", fm[f]); ev_int (key, rc);
+		snprintf (key, sizeof key, "%s_len", fm[f]); ev_int (key, n);
+		snprintf (key, sizeof key, "%s_hash", fm[f]); ev_key (key); fprintf (EV, "\"%016llx\"", h);
+	}
+	END ();
+}
 static void c_dump (void) { int k = nslot ('p'); BEGIN ("dump"); dump_body (P[k], 0); END (); }
 static void c_dumpx (void) { int k = nslot ('p'); BEGIN ("dumpx"); dump_body (P[k], 1); END (); }
 
@@ -796,6 +829,15 @@ static void dumpsol_body (mpq_QSprob p, int named)
 		rc = mpq_QSget_basis_array (p, cs, rs); ev_int ("bas_rc", rc);
 		if (!rc) { ev_chars ("cstat", cs, nc); ev_chars ("rstat", rs, nr); }
 		free (cs); free (rs);
+	}
+	if (named)
+	{
+		/* the working basis next to the stored one: which variable is basic in which row */
+		int *ord = malloc ((nr + 1) * sizeof (int)), i2;
+		for (i2 = 0; i2 < nr; i2++) ord[i2] = -99;
+		rc = mpq_QSget_basis_order (p, ord); ev_int ("border_rc", rc);
+		if (!rc) ev_iarr ("border", ord, nr);
+		free (ord);
 	}
 	mpq_clear (v); qfree (x, nc); qfree (pi, nr); qfree (sl, nr); qfree (rcv, nc);
 }
@@ -902,6 +944,14 @@ static void c_opt_dual (void)
 { int k = nslot ('p'), st = -1, rc; BEGIN ("opt_dual"); rc = mpq_QSopt_dual (P[k], &st); ev_int ("rc", rc); ev_int ("status", st); END (); }
 static void c_pivotin_row (void)
 { int k = nslot ('p'), n, rc; int *l = read_ilist (&n); BEGIN ("pivotin_row"); rc = mpq_QSopt_pivotin_row (P[k], n, l); ev_int ("rc", rc); END (); free (l); }
+/* strongbranch pK n idx.. : 5 dual simplex iterations per branch, no objective bound */
+static void c_strongbranch (void)
+{
+	int k = nslot ('p'), n, rc; int *l = read_ilist (&n); mpq_t *dn = qalloc (n + 1), *up = qalloc (n + 1), ob;
+	mpq_init (ob); mpq_set_si (ob, 1000000, 1);
+	BEGIN ("strongbranch"); rc = mpq_QSopt_strongbranch (P[k], n, l, 0, dn, up, 5, ob); ev_int ("rc", rc); END ();
+	mpq_clear (ob); qfree (dn, n + 1); qfree (up, n + 1); free (l);
+}
 static void c_pivotin_col (void)
 { int k = nslot ('p'), n, rc; int *l = read_ilist (&n); BEGIN ("pivotin_col"); rc = mpq_QSopt_pivotin_col (P[k], n, l); ev_int ("rc", rc); END (); free (l); }
 static void c_get_infeas (void)
@@ -1387,10 +1437,10 @@ static cmd_t cmds[] = {
 	C (delete_named_rows_list), C (delete_named_columns_list), C (delete_setrows), C (delete_setcols),
 	C (change_sense), C (change_senses), C (change_coef), C (change_objcoef), C (change_rhscoef), C (change_range), C (change_bound),
 	C (change_bounds), C (change_objsense), C (set_param), C (set_reporter), C (set_param_num), C (get_param), C (get_param_num),
-	C (dump), C (dumpx), C (dumpsol), C (get_coef), C (get_bound), C (get_bounds_list), C (get_obj_list), C (get_rows_list),
+	C (dump), C (dumpx), C (dumpsol), C (writehash), C (get_coef), C (get_bound), C (get_bounds_list), C (get_obj_list), C (get_rows_list),
 	C (get_ranged_rows_list), C (get_columns_list), C (get_column_index), C (get_row_index), C (get_named_x), C (get_named_rc),
 	C (get_named_pi), C (get_named_slack),
-	C (solve_exact), C (opt_primal), C (opt_dual), C (pivotin_row), C (pivotin_col), C (get_infeas),
+	C (solve_exact), C (opt_primal), C (opt_dual), C (pivotin_row), C (pivotin_col), C (strongbranch), C (get_infeas),
 	C (get_basis), C (make_basis), C (dump_basis), C (free_basis), C (load_basis), C (load_basis_array), C (get_basis_array),
 	C (get_basis_norms), C (roundtrip_basis_norms), C (load_basis_norms), C (compute_row_norms), C (test_row_norms), C (write_basis), C (read_basis),
 	C (read_and_load_basis), C (basis_optimalstatus), C (basis_dualstatus), C (verify),
